@@ -285,7 +285,9 @@ pub fn run_pipeline(sc: &RepScenario, cfg: &SimConfig, sched: &Sched, iterations
     let results2 = results.clone();
     let body = move || {
         sim::configure(cfg2.clone(), true);
+        sim::enter_simulation();
         let mut r = run_once(&sc2, &dir2);
+        sim::leave_simulation();
         r.stats = sim::take_stats();
         sim::configure(SimConfig::default(), false);
         results2.lock().unwrap().push(r);
@@ -304,6 +306,7 @@ pub fn run_pipeline(sc: &RepScenario, cfg: &SimConfig, sched: &Sched, iterations
             Runner::new(PctScheduler::new_from_seed(*seed, *depth, iterations), config).run(body);
         }
     }));
+    sim::leave_simulation();
     sim::configure(SimConfig::default(), false);
     let _ = std::fs::remove_dir_all(&dir);
     match outcome {
@@ -316,9 +319,19 @@ pub fn run_pipeline(sc: &RepScenario, cfg: &SimConfig, sched: &Sched, iterations
             } else {
                 "panic".to_string()
             };
+            if msg.contains("Cannot allocate memory") || msg.contains("OutOfMemory") {
+                // the simulator itself ran out of continuation stacks / mappings: nothing can be
+                // concluded from this execution
+                return Err(format!("SIMULATOR-RESOURCES: {}", msg));
+            }
             Err(msg)
         }
     }
+}
+
+/// a panic message that stems from the simulator's own resource limits, not from the code under test
+pub fn is_resource_panic(msg: &str) -> bool {
+    msg.starts_with("SIMULATOR-RESOURCES")
 }
 
 pub fn reference_cfg() -> SimConfig {
